@@ -144,7 +144,8 @@ class SidecarValidator:
         found_column_references = {}
         for column_data in sidecar:
             column_name = column_data.column_name
-            hed_strings = column_data.get_hed_strings()
+            # Screen the same (not type-validated) strings that validate() later expands references in.
+            hed_strings = column_data._get_unvalidated_data().get_hed_strings()
             error_handler.push_error_context(ErrorContext.SIDECAR_COLUMN_NAME, column_name)
             matches = []
             for key_name, hed_string in hed_strings.items():
